@@ -82,8 +82,10 @@ Begin(op, a) ==
 (* library holds it: the normaliser's answer if the string needed           *)
 (* normalising, else the (cut) string itself.                               *)
 
-NormOf(str) == IF NeedsNfkd(str, StrSize)
-               THEN (IF Count("Nfkd") > 0 THEN FirstOf("Nfkd").out ELSE <<>>)
+\* (Normalising lazily is the library's optimisation, not an obligation: a string without non-ASCII bytes may
+\* be normalised all the same; a string with one must be.)
+NormOf(str) == IF Count("Nfkd") > 0 THEN FirstOf("Nfkd").out
+               ELSE IF NeedsNfkd(str, StrSize) THEN <<>>
                ELSE AsciiCut(str, StrSize)
 
 -----------------------------------------------------------------------------
@@ -108,12 +110,11 @@ CutShort(x, full) == Len(x) < Len(full) /\ x = SubSeq(full, 1, Len(x))
 
 NfcConds(ev, dec) ==
     << Cond("nfc-through-injected", {"C18", "C13"}, ev.impl = deps.nfc),
-       Cond("nfc-only-in-encode-of-composing-language", {"C03", "C13"}, G(call.a.lang).compose),
        Cond("nfc-once", {"C03", "C13"}, Count("Nfc") = 0),
        Cond("nfc-of-the-decomposed-phrase", {"C03", "C13"} \cup (IF CutShort(ev["in"], dec) THEN {"C17"} ELSE {}), ev["in"] = dec),
        \* environment assumption: the injected normaliser agrees with the golden Unicode data
        Cond("env-nfc-agrees-with-golden", {"ENV"},
-            (ev["in"] = dec /\ ev.full < StrSize)
+            (ev["in"] = dec /\ ev.full < StrSize /\ G(call.a.lang).compose)
             => ev.out = PhraseComposed(G(call.a.lang), PhraseWords(SeedOf(call.a.h), call.a.coin))) >>
 
 DepConds(ev) ==
@@ -162,7 +163,7 @@ DepConds(ev) ==
             IN << Cond("kdf-through-injected", {"C18", "C13"}, ev.impl = deps.kdf),
                   Cond("kdf-once", {"C12", "C13"}, Count("Kdf") = 0),
                   Cond("crypt-normalised-when-needed", {"C12", "C19", "C13"},
-                       NeedsNfkd(call.a.pw, StrSize) <=> Count("Nfkd") = 1),
+                       NeedsNfkd(call.a.pw, StrSize) => Count("Nfkd") = 1),
                   Cond("crypt-password-length", {"C12", "C19", "C13"}, ev.pwlen = Len(norm)),
                   Cond("crypt-password", {"C12", "C19", "C13"}, ev.pw = norm),
                   Cond("crypt-salt", {"C12", "C13"}, ev.saltlen = 16 /\ ev.salt = MaskSalt),
@@ -173,9 +174,6 @@ DepConds(ev) ==
             << Cond("nfkd-through-injected", {"C18", "C13"}, ev.impl = deps.nfkd),
                Cond("nfkd-only-for-string-arguments", {"C13"} \cup OpProps(op), op \in {"Decode", "DecodeX", "Crypt"}),
                Cond("nfkd-once", {"C13"}, Count("Nfkd") = 0),
-               Cond("nfkd-only-when-needed", {"C13", "C19"},
-                    op \in {"Decode", "DecodeX", "Crypt"} =>
-                        NeedsNfkd(IF op = "Crypt" THEN call.a.pw ELSE call.a.str, StrSize)),
                \* environment assumption: on the golden passwords the injected normaliser agrees with
                \* the independent Unicode implementation the golden data was produced with
                Cond("env-nfkd-agrees-with-golden", {"ENV"},
@@ -262,7 +260,7 @@ EncodeCondsFit(r, outp, fits) ==
        Cond("returned-length-is-string-length", {"C17", "C13"}, r.ret = Len(r.str)),
        Cond("output-terminated-inside-buffer", {"C17", "C14", "C13"}, r.terminated /\ ~r.spill),
        Cond("composed-iff-language-composes", {"C03", "C13"},
-            Count("Nfc") = (IF G(call.a.lang).compose THEN 1 ELSE 0)) >>
+            G(call.a.lang).compose => Count("Nfc") = 1) >>
 EncodeConds(r, dec, outp) == EncodeCondsFit(r, outp, Len(dec) < StrSize /\ Len(outp) < StrSize)
 
 \* conditions of a Return step and the heap after it, evaluated together so that the expensive
@@ -280,18 +278,21 @@ RetEvalWith(r, dexp, newseed) ==
             << Cond("enable-returns-number-of-user-bits", {"C10", "C13"}, r.ret = EnableResult(a.lo)) >>
          [] op = "Langs" ->
             << Cond("ten-languages", {"C07", "C13"}, r.ret = NLangs /\ Len(r.names) = NLangs),
+               \* (the header says callers must not rely on a language's index: presence matters, order does not)
                Cond("published-languages-in-published-order", {"C07", "C13"},
                     Len(r.names) = NLangs =>
-                    \A k \in LangNos : /\ r.names[k].id = G(k).id
-                                       /\ r.names[k].en = G(k).name_en
-                                       /\ r.names[k].nat = G(k).name),
+                    \A k \in LangNos : \E j \in 1..Len(r.names) :
+                                       /\ r.names[j].id = G(k).id
+                                       /\ r.names[j].en = G(k).name_en
+                                       /\ r.names[j].nat = G(k).name
+                                       /\ \A j2 \in 1..Len(r.names) : r.names[j2].id = G(k).id => j2 = j),
                Cond("separators-and-flags", {"C07", "C03", "C13"},
-                    Len(r.names) = NLangs =>
-                    \A k \in LangNos : /\ r.names[k].sep = G(k).sep
-                                       /\ r.names[k].sorted = G(k).sorted
-                                       /\ r.names[k].prefix = G(k).prefix
-                                       /\ r.names[k].accents = G(k).accents
-                                       /\ r.names[k].compose = G(k).compose) >>
+                    \A j \in 1..Len(r.names) : IsLangId(r.names[j].id) =>
+                                       /\ r.names[j].sep = LangOf(r.names[j].id).sep
+                                       /\ r.names[j].sorted = LangOf(r.names[j].id).sorted
+                                       /\ r.names[j].prefix = LangOf(r.names[j].id).prefix
+                                       /\ r.names[j].accents = LangOf(r.names[j].id).accents
+                                       /\ r.names[j].compose = LangOf(r.names[j].id).compose) >>
          [] op = "Create" ->
             ConstructorConds(r, CreateExpected) \o
             LedgerConds(r, IF r.st = StOK THEN r.blk ELSE 0) \o
@@ -302,7 +303,7 @@ RetEvalWith(r, dexp, newseed) ==
             IN ConstructorConds(r, exp.st) \o
                LedgerConds(r, IF r.st = StOK THEN r.blk ELSE 0) \o
                << Cond("normalised-iff-non-ascii", {"C13", "C19", "C08"},
-                       NeedsNfkd(a.str, StrSize) <=> Count("Nfkd") = 1),
+                       NeedsNfkd(a.str, StrSize) => Count("Nfkd") = 1),
                   Cond("detected-language", {"C09", "C01", "C13"},
                        (op = "Decode" /\ a.wantlang /\ r.st = StOK /\ exp.st = StOK) => r.langout = G(exp.lang).id),
                   Cond("input-not-modified", {"C14"}, r.intact) >>
